@@ -196,6 +196,11 @@ func oracle(c *octx) *eng.Violation {
 	if v := c.terminated(); v != nil {
 		return v
 	}
+	for _, e := range c.res.Events {
+		if e.Kind == "decoy_called" {
+			return c.viol("overridden-function-called", "node %d: a %s function that had been replaced by a later setting was called (last setting wins)", e.N, e.S1)
+		}
+	}
 	switch c.prop {
 	case "C01":
 		return first(c.mainEq("trace", projC01, false), c.outcome("result", true, false))
@@ -420,6 +425,7 @@ func (c *octx) stopOnError(boosted bool) *eng.Violation {
 				return c.viol("failing-worker-continued", "batch node %d (stop on error): worker %s started item %d at seq %d after it had itself seen item %d fail at seq %d", mb.N, e.Task, e.I-1, e.Seq, F.I-1, F.Seq)
 			}
 			newOn[e.Task]++
+			c.out.Probes["item_started_on_other_worker_after_failure"]++
 			if boosted {
 				if open[e.Task] {
 					return c.viol("new-item-after-handled-failure", "batch node %d (stop on error, failure handled first): worker %s was inside an execution when item %d failed, yet started another item (%d) afterwards", mb.N, e.Task, F.I-1, e.I-1)
